@@ -194,15 +194,21 @@ class SymSim(mosaik_api_v3.Simulator):
         k = self.n
         self.n += 1
         self.t = time
-        if k >= K:
-            raise PathCut(f'{self.sid} asked for more than {K} steps')
-        last = k == K - 1
         until = CTX['until']
         beh = CTX.get('behaviour')
         if beh is not None:
             r = beh(self, 'step', k, time, inputs, max_advance)
             if r is not NotImplemented:
                 return r
+        if k >= K:
+            # beyond the behaviour bound the simulator goes quiet (no self-schedule before until, no event outputs):
+            # a legal behaviour, so the rest of the run is still monitored instead of being cut
+            if not CTX.get('quiet_after_K', True) or k >= K + CTX.get('quiet_steps', 8):
+                raise PathCut(f'{self.sid} asked for more than {K} steps')
+            if self.typ == 'time-based':
+                return until if bool(time < until) else time + 1
+            return None
+        last = k == K - 1
         if self.typ == 'time-based':
             d = eng.int(f'{self.sid}.d{k}', 1)
             if last:
@@ -225,11 +231,14 @@ class SymSim(mosaik_api_v3.Simulator):
         data = {}
         only_events = True
         any_event = False
+        quiet = k >= CTX['K']
         for eid, attrs in outputs.items():
             for a in attrs:
                 if a == 'op' or self.typ == 'time-based':
                     data.setdefault(eid, {})[a] = f'{self.sid}#{k}.{a}'
                     only_events = False
+                elif quiet:
+                    continue
                 else:
                     if eng.flag(f'{self.sid}.out{k}.{a}'):
                         data.setdefault(eid, {})[a] = f'{self.sid}#{k}.{a}'
@@ -299,6 +308,7 @@ STUBS = [
     "scheduler.get_progress / get_avg_progress (progress-bar arithmetic) return constants; tqdm disabled (print_progress=False); loguru sinks removed",
     "name int in mosaik.scenario bound to a symbolic-aware int() (returns a symbolic int unchanged, else the builtin)",
     "simulators are constrained by the documented API contract only: next step > current time, output time >= step time and only for replies that carry non-persistent outputs only, persistent outputs always present",
+    "behaviour bound K: a simulator's first K steps have symbolic behaviour; from step K+1 on it goes quiet (no event outputs, no self-schedule before until; time-based simulators return until) - a legal behaviour, so the rest of the run is still monitored; paths needing more than K+8 steps, and with a symbolic until more than K steps, are cut and counted",
     "symbolic values that reach a hash / index / C-level int are concretised by the solver, one feasible value at a time (all values explored)",
 ]
 
@@ -409,6 +419,7 @@ def run_world(eng, topo, cfg, behaviour=None, hook=None, fault=None, rules=None,
     CTX.update(eng=eng, loop=loop, K=cfg.get('K', 2), until=until, ref=ref, log=log,
                sync=set(cfg.get('sync', ())), future_outputs=cfg.get('future_outputs', False),
                no_self=set(cfg.get('no_self', ())), behaviour=behaviour, hook=hook, fault=fault,
+               quiet_after_K=cfg.get('quiet_after_K', True),
                bounded_times=bool(cfg.get('cache', True) or cfg.get('debug', False)))
     r = Run()
     r.ref, r.loop, r.log, r.until = ref, loop, log, until
